@@ -14,7 +14,9 @@
   to agree with the RFC: lower-case scheme, non-empty authority of `[a-z0-9.-]`, path of unreserved
   characters and `/` without empty segments (Go's `resolvePath` treats `..//` unlike RFC 3986), query/fragment of unreserved characters and `=&`, base absolute with
   authority, with a non-empty path and without fragment (Go keeps the base's fragment for an empty
-  reference and does not insert the `/` of RFC 3986 §5.2.3 under an empty base path). Outside the fragment the resolver answers `none`, the run ends with `err:resolve`,
+  reference and does not insert the `/` of RFC 3986 §5.2.3 under an empty base path), and without
+  `.`/`..` segments in the base path (a base declared without a base in force is kept verbatim, and Go
+  removes its dot segments on every later resolution, also for `<>`, `<#x>`, `<?y>`). Outside the fragment the resolver answers `none`, the run ends with `err:resolve`,
   and the harness counts a resolver-caused skip when the implementation went on.
 -/
 import RdfModel.Driver.Wire
@@ -62,7 +64,8 @@ def resolveSafe (base : Option (List Nat)) (ref : List Nat) : Option (List Nat) 
     | none => some ref
     | some b =>
       let B := Spec.RFC3986.split b
-      if safeParts B && B.scheme.isSome && B.authority.isSome && B.fragment.isNone && B.path.head? == some 0x2f then some (Spec.RFC3986.resolve b ref)
+      if safeParts B && B.scheme.isSome && B.authority.isSome && B.fragment.isNone && B.path.head? == some 0x2f &&
+          (Spec.RFC3986.segments B.path).all (fun sg => !Spec.RFC3986.isDotSegment sg) then some (Spec.RFC3986.resolve b ref)
       else none
 
 def cfgOf (pkg : String) : Option Cfg :=
